@@ -11,13 +11,13 @@ from .tlc import derive_cfg, run_tlc
 VECTORS = {
     "both": dict(Mod="ModAB", HasB="ModAB", Flavour="FlavBoth", ImpTarget='"b"',
                  mods=["a", "b"], hasB=["a", "b"], flavour={"a": "ok", "b": "none"}, imp="b"),
-    "raise": dict(Mod="ModAB", HasB="{}", Flavour="FlavRaise", ImpTarget='"b"',
+    "raise": dict(Mod="ModAB", HasB="NoMods", Flavour="FlavRaise", ImpTarget='"b"',
                   mods=["a", "b"], hasB=[], flavour={"a": "raises", "b": "ok"}, imp="b"),
-    "imports": dict(Mod="ModABC", HasB='{"c"}', Flavour="FlavImports", ImpTarget='"c"',
+    "imports": dict(Mod="ModABC", HasB="OnlyC", Flavour="FlavImports", ImpTarget='"c"',
                     mods=["a", "b", "c"], hasB=["c"], flavour={"a": "imports", "b": "none", "c": "ok"}, imp="c"),
     "removes": dict(Mod="ModAB", HasB="ModAB", Flavour="FlavRemoves", ImpTarget='"b"',
                     mods=["a", "b"], hasB=["a", "b"], flavour={"a": "removes", "b": "ok"}, imp="b"),
-    "mix3": dict(Mod="ModABC", HasB='{"b", "c"}', Flavour="FlavMix3", ImpTarget='"c"',
+    "mix3": dict(Mod="ModABC", HasB="ModBC", Flavour="FlavMix3", ImpTarget='"c"',
                  mods=["a", "b", "c"], hasB=["b", "c"], flavour={"a": "ok", "b": "raises", "c": "none"}, imp="c"),
 }
 
